@@ -159,7 +159,12 @@ func c11History(k *fw.K, quick bool) {
 	if quick {
 		m.Steps = 2 + r.Intn(5)
 	}
-	m.Variant = []string{"plain", "vary-batch", "omit-reset", "extra-forward", "reuse-batch", "dead-relu", "exact-fit", "large-logits", "saturated-tanh", "non-finite-feature"}[r.Intn(10)]
+	m.Variant = []string{"plain", "vary-batch", "omit-reset", "extra-forward", "reuse-batch", "dead-relu", "exact-fit", "large-logits", "saturated-tanh", "non-finite-feature", "confident-wrong"}[r.Intn(11)]
+	if m.Variant == "confident-wrong" {
+		// every sample is predicted with confidence and is wrong: the probability of the observed class is 1e-12..1e-8, still inside the
+		// clipping interval of the loss, so d loss / d logit = p - t = -1 and the parameters move by lr * x / N per sample
+		m.Act, m.Loss = "sigmoid", "bce"
+	}
 	if m.Variant == "saturated-tanh" {
 		// every unit deep in the plateau of Tanh (|z| = 19.5..24: tanh rounds to +-1, its derivative 1/cosh^2 is 1e-17..1e-21) under
 		// targets of the size of 1e5..1e6: the parameters still move by a representable amount at every step
@@ -216,6 +221,11 @@ func c11History(k *fw.K, quick bool) {
 	if m.Variant == "non-finite-feature" {
 		for i := range w0.Data {
 			w0.Data[i] = 0
+		}
+	}
+	if m.Variant == "confident-wrong" {
+		for i := range w0.Data { // the features of a sample sum to 1 (see newBatch): z = w + b = -26.5..-19.5, the label is 1
+			w0.Data[i], b0.Data[i] = -(20+6*r.Float64()), 0.5*r.Float64()
 		}
 	}
 	trace := []map[string]any{}
@@ -313,7 +323,7 @@ func c11History(k *fw.K, quick bool) {
 		if m.Variant == "dead-relu" {
 			x = RandT(r, []int{m.B, m.D}, 0.1, 1)
 		}
-		if m.Variant == "saturated-tanh" {
+		if m.Variant == "saturated-tanh" || m.Variant == "confident-wrong" {
 			for b := 0; b < m.B; b++ {
 				rest := 1.
 				for d := 0; d < m.D-1; d++ {
@@ -351,6 +361,9 @@ func c11History(k *fw.K, quick bool) {
 			}
 			if m.Loss == "mse" {
 				t.Data[i] = r.Float64()*2 - 1
+			}
+			if m.Variant == "confident-wrong" {
+				t.Data[i] = 1
 			}
 			if m.Variant == "saturated-tanh" {
 				t.Data[i] = satSign * (1e5 + 9e5*r.Float64()) // one sign: the terms of a parameter's gradient do not cancel
